@@ -60,10 +60,22 @@ def run_one(m, prop):
 def main():
     prop = sys.argv[1]
     ms = []
-    for f in ("mutants/mutants.json", "mutants/reversals.json"):
+    for f in ("mutants/mutants.json", "mutants/reversals.json", "mutants/sweep.json"):
         p = os.path.join(VERIF, f)
         if os.path.exists(p):
             ms += [m for m in json.load(open(p))["mutants"] if prop in m["props"]]
+    # independently seeded changes for this property must be reported by it
+    sd = os.path.join(VERIF, "seeded")
+    for d in sorted(os.listdir(sd)) if os.path.isdir(sd) else []:
+        if d.split("-")[0] == prop and os.path.exists(os.path.join(sd, d, "patch.diff")):
+            ms.append(dict(id="seed-" + d, patch=os.path.join("seeded", d, "patch.diff"), expect="fire", props=[prop],
+                           desc="independently seeded property-breaking change (see seeded/%s/NOTES.md)" % d))
+    # behaviour-preserving refactorings written by independent sub-agents must stay silent
+    bd = os.path.join(VERIF, "benign")
+    for f in sorted(os.listdir(bd)) if os.path.isdir(bd) else []:
+        if f.endswith(".diff"):
+            ms.append(dict(id="benign-" + f[:-5], patch=os.path.join("benign", f), expect="silent", props=[prop],
+                           desc="behaviour-preserving refactoring (see benign/*_NOTES.md)"))
     with ThreadPoolExecutor(max_workers=int(os.environ.get("VERIF_JOBS", "8"))) as ex:
         res = list(ex.map(lambda m: run_one(m, prop), ms))
     json.dump(dict(property=prop, mutants=len(ms), results=res), sys.stdout, indent=1)
